@@ -38,8 +38,8 @@ def shards(tier):
             for n in (0, 1, 2, 3, 4):
                 for sub in (0, 1):
                     # budget: the number of schedules grows with messages x subdivision points; the deeper combinations get fewer
-                    # contested scheduling decisions (measured: 16 bits with subdivision and >= 3 messages does not finish in 900 s)
-                    bits = 20 if n <= 2 else ((16 if n == 3 else 14) if not sub else 12)
+                    # contested scheduling decisions (measured: with >= 3 messages and subdivision, or 4 messages, 12-16 contested decisions do not finish in 900 s)
+                    bits = 20 if n <= 2 else ((16 if n == 3 else 10) if not sub else 8)
                     out.append({"fmt": fmt, "n": n, "bits": bits, "subdiv": sub})
             for pz in (0, 1, 2):
                 out.append({"fmt": fmt, "n": 3, "bits": 16, "pause": pz})
